@@ -449,8 +449,15 @@ def gen_batch_config(rng, arith=None, names_kind=None, classes=None):
             "rng": wchoice(rng, [("perop", 60), ("tape", 25), ("once", 15)]), "record_draws": True}
 
 
-def gen_batch_schedule(rng, cfg, T=None):
+def gen_batch_schedule(rng, cfg, T=None, big=False):
     b = Builder(rng, cfg)
+    if big:
+        # a data set of several dozen rows (chunked / vectorised code paths only show beyond small sizes)
+        for k, e in enumerate(cfg["explainers"]):
+            if e["cls"] == "batch":
+                own = ("explicit", e["storage"]) if "storage" in e else ("own", k)
+                for _ in range(rng.randint(30, 75)):
+                    b.store(own)
     T = T or wchoice(rng, [(rng.randint(3, 8), 35), (rng.randint(8, 20), 45), (rng.randint(20, 40), 20)])
     n_e = len(cfg["explainers"])
     while len(b.ops) < T:
@@ -485,8 +492,18 @@ def gen_batch_schedule(rng, cfg, T=None):
     return b.ops
 
 
-def gen_batch_plan(rng, prop, **kw):
+def gen_batch_plan(rng, prop, big=False, **kw):
     cfg = gen_batch_config(rng, **kw)
-    ops = gen_batch_schedule(rng, cfg)
+    if big:
+        for e in cfg["explainers"]:
+            e["n_inner"] = 1
+    ops = gen_batch_schedule(rng, cfg, T=(rng.randint(3, 8) if big else None), big=big)
+    if big:
+        # explain_many over many rows as well
+        for k, e in enumerate(cfg["explainers"]):
+            if e["cls"] == "batch":
+                n_rows = rng.randint(33, 90)
+                ops.append({"op": "many_orig" if rng.random() < 0.5 else "many", "e": k,
+                            "tags": [1000 + j for j in range(n_rows)], "rs": rng.getrandbits(48)})
     strip_private(cfg)
     return {"property": prop, "kind": "explainer", "config": cfg, "ops": ops, "rs0": rng.getrandbits(48)}
